@@ -4,3 +4,4 @@ import AkVerif.Props.C17
 import AkVerif.Props.C14
 import AkVerif.Props.C11
 import AkVerif.Props.C12
+import AkVerif.Props.C15
